@@ -1,6 +1,8 @@
 package harness
 
 import (
+	"cosmossdk.io/math"
+	"os"
 	"bufio"
 	"bytes"
 	"fmt"
@@ -129,6 +131,20 @@ func (w *World) compensateKnownImportLosses(shadow *World) {
 		key := types.GetRedelegationIndexKey(w.ValAddr(i.src), nsToTime(ns), denomName(i.denom), w.ValAddr(i.dst), w.AccAddr(i.del))
 		st := k.StoreService().OpenKVStore(shadow.Ctx)
 		_ = st.Set(key, []byte{})
+		// ... and the entry of the time queue that removes this key at maturity on the original
+		// branch (the queue is rebuilt from the merged record: one source only)
+		qk := types.GetRedelegationQueueKey(nsToTime(ns))
+		var q types.QueuedRedelegation
+		if b, err := st.Get(qk); err == nil && b != nil {
+			shadow.App.AppCodec().MustUnmarshal(b, &q)
+		}
+		q.Entries = append(q.Entries, &types.Redelegation{
+			DelegatorAddress:    w.AccAddr(i.del).String(),
+			SrcValidatorAddress: w.ValAddr(i.src).String(),
+			DstValidatorAddress: w.ValAddr(i.dst).String(),
+			Balance:             sdk.NewCoin(denomName(i.denom), math.ZeroInt()),
+		})
+		_ = st.Set(qk, shadow.App.AppCodec().MustMarshal(&q))
 	}
 }
 
@@ -163,6 +179,18 @@ func (w *World) compareShadow(shadow *World, when string) {
 	for l := range b {
 		if !a[l] {
 			tags[strings.SplitN(l, " ", 2)[0]] = true
+		}
+	}
+	if os.Getenv("H_DEBUG_SHADOW") != "" {
+		for l := range a {
+			if !b[l] {
+				fmt.Println("ORIG-ONLY", when, l)
+			}
+		}
+		for l := range b {
+			if !a[l] {
+				fmt.Println("SHADOW-ONLY", when, l)
+			}
 		}
 	}
 	for t := range tags {
